@@ -167,7 +167,7 @@ class Fn:
                 break
         return i
 
-    def text(self, i, depth=0, ref_cb=None):
+    def text(self, i, depth=0, ref_cb=None, node_cb=None):
         """Canonical rendering of an expression (for keys and diagnostics).
         ref_cb(node) may return a replacement string for a reference."""
         if i is None or i < 0:
@@ -177,7 +177,11 @@ class Fn:
         i = self.strip(i)
         n = self.nodes[i]
         k = n["k"]
-        T = lambda x: self.text(x, depth + 1, ref_cb)
+        if node_cb is not None:
+            r = node_cb(i, n)
+            if r is not None:
+                return r
+        T = lambda x: self.text(x, depth + 1, ref_cb, node_cb)
         if k == "ref":
             if ref_cb is not None:
                 r = ref_cb(n)
